@@ -654,3 +654,116 @@ func ruleC07Statements(p *Program, r *Run) {
 	r.Check(len(bad) == 0 && exits >= 1 && loop.Cond == nil, "C07/statements", fn+" statement loop ends only at the end of the tokens", p.Pos(loop.Pos()), "the only exit is `next()` reporting the end of the token stream: empty statements are skipped, every other one is parsed", "Parse's statement loop can end before the token stream is exhausted ("+strings.Join(bad, "; ")+"): statements after that point are dropped without an error")
 	r.Floor("C07/statements", 1)
 }
+
+// ---- C07/keeps: whatever a sub-production parsed ends up in the tree.
+// For every call of a parser production whose first result is a syntax-tree node, that result is stored into a field
+// (or appended to a slice field) of the node being built, placed in a node literal, or returned.
+func ruleC07Keeps(p *Program, r *Run) {
+	pkg := p.Parser
+	info := pkg.TypesInfo
+	nodeIface := p.Iface(pkg, "Node")
+	isNodeVal := func(t types.Type) bool {
+		if sl, ok := t.Underlying().(*types.Slice); ok {
+			t = sl.Elem()
+		}
+		return types.Implements(t, nodeIface)
+	}
+	n := 0
+	for _, fd := range AllFuncs(pkg) {
+		if fd.Recv == nil || recvTypeName(fd.Recv.List[0].Type) != "parser" {
+			if !(fd.Name.Name == "Parse" && fd.Recv == nil) {
+				continue
+			}
+		}
+		fn := FuncName(pkg, fd)
+		ast.Inspect(fd.Body, func(x ast.Node) bool {
+			as, ok := x.(*ast.AssignStmt)
+			if !ok || len(as.Rhs) != 1 || len(as.Lhs) < 1 {
+				return true
+			}
+			call, ok := as.Rhs[0].(*ast.CallExpr)
+			if !ok {
+				return true
+			}
+			callee := Callee(info, call)
+			isProd := callee != nil && cursorOf(callee) == "parser" && callee.Name() != "next" && callee.Name() != "split" && callee.Name() != "splitSemi"
+			isFirst := callee != nil && (callee.Name() == "firstParse" || (callee.Origin() != nil && callee.Origin().Name() == "firstParse"))
+			if !isProd && !isFirst {
+				return true
+			}
+			var t types.Type
+			if sig, ok := info.TypeOf(call.Fun).(*types.Signature); ok && sig.Results().Len() >= 1 {
+				t = sig.Results().At(0).Type()
+			}
+			if t == nil || !isNodeVal(t) {
+				return true
+			}
+			n++
+			if id, isID := as.Lhs[0].(*ast.Ident); isID && id.Name == "_" {
+				r.Saw(fn)
+				r.Fail("C07/keeps", fmt.Sprintf("%s result #%d of %s", fn, n, exprStr(call.Fun)), p.Pos(as.Pos()), "the node parsed by "+exprStr(call.Fun)+" is assigned to _: that part of the source is parsed and then dropped")
+				return true
+			}
+			r.Saw(fn)
+			key := fmt.Sprintf("%s result #%d of %s", fn, n, exprStr(call.Fun))
+			// stored straight into a field?
+			if _, isSel := ast.Unparen(as.Lhs[0]).(*ast.SelectorExpr); isSel {
+				r.Pass("C07/keeps", key, p.Pos(as.Pos()), "stored directly into a field of the node being built")
+				return true
+			}
+			v := objOf(info, as.Lhs[0])
+			if v == nil {
+				r.Fail("C07/keeps", key, p.Pos(as.Pos()), "the parsed node is discarded")
+				return true
+			}
+			kept := false
+			scope := ast.Node(fd.Body)
+			ast.Inspect(scope, func(y ast.Node) bool {
+				switch u := y.(type) {
+				case *ast.KeyValueExpr:
+					if objOf(info, u.Value) == v {
+						kept = true
+					}
+				case *ast.CompositeLit:
+					for _, el := range u.Elts {
+						if objOf(info, el) == v {
+							kept = true
+						}
+					}
+				case *ast.CallExpr:
+					if IsBuiltinCall(info, u, "append") {
+						for _, a := range u.Args[1:] {
+							if objOf(info, a) == v {
+								kept = true
+							}
+						}
+					} else if sel, ok := ast.Unparen(u.Fun).(*ast.SelectorExpr); ok && objOf(info, sel.X) == v && isNodeVal(info.TypeOf(u)) {
+						kept = true // wrapped into another node (id.AsQualified())
+					} else if f := Callee(info, u); f != nil && cursorOf(f) == "parser" {
+						for _, a := range u.Args {
+							if objOf(info, a) == v {
+								kept = true // handed on to another production (exprBinaryTrail(x, ...))
+							}
+						}
+					}
+				case *ast.AssignStmt:
+					for i, l := range u.Lhs {
+						if _, isSel := ast.Unparen(l).(*ast.SelectorExpr); isSel && i < len(u.Rhs) && objOf(info, u.Rhs[i]) == v {
+							kept = true
+						}
+					}
+				case *ast.ReturnStmt:
+					for _, res := range u.Results {
+						if objOf(info, res) == v {
+							kept = true
+						}
+					}
+				}
+				return true
+			})
+			r.Check(kept, "C07/keeps", key, p.Pos(as.Pos()), "the parsed node is placed in the tree (field, slice element, node literal) or returned", "the node parsed by "+exprStr(call.Fun)+" is never stored in the tree or returned: that part of the source is parsed and then dropped")
+			return true
+		})
+	}
+	r.Floor("C07/keeps", 25)
+}
